@@ -18,6 +18,7 @@ pub const ATTR_B: &str = "auth_password_minimum_length"; // model "b": uint32 (e
 pub const STRS: [&str; 3] = ["", "abx", "xab"];
 /// model needle id -> string (KFilter.tla NeedleOf: 0="ab" 1="bx" 2="xa")
 pub const NEEDLES: [&str; 3] = ["ab", "bx", "xa"];
+pub const V_OBJECT: u64 = 90;
 pub const V_RECYCLED: u64 = 91;
 pub const V_TOMBSTONE: u64 = 92;
 
@@ -302,10 +303,11 @@ pub fn snapshot<'a, T: QueryServerTransaction<'a>>(txn: &mut T) -> Snapshot {
                 let mut b: Vec<u64> = ava_strings(e, attr("b")).iter().filter_map(|s| s.parse().ok()).collect();
                 b.sort();
                 let live = liveness(e);
+                // 90 = "object": every entry has a class (the repaired rewrite anchors NOT terms on pres(class))
                 let class: Vec<u64> = match live {
-                    "live" => vec![],
-                    "recycled" => vec![V_RECYCLED],
-                    _ => vec![V_TOMBSTONE],
+                    "live" => vec![V_OBJECT],
+                    "recycled" => vec![V_OBJECT, V_RECYCLED],
+                    _ => vec![V_OBJECT, V_TOMBSTONE],
                 };
                 db.push(json!({"id": n, "a": a, "b": b, "class": class}));
                 idmap.insert(e.get_id(), n);
